@@ -36,7 +36,7 @@ pub async fn sweep(h: &mut Hyb, via: &'static str) -> Vec<Res> {
 pub async fn end_of_workload(h: &mut Hyb) {
     let prop = h.case.property.clone();
     match prop.as_str() {
-        "C01" | "C17" | "C12" | "C15" => {
+        "C01" | "C17" | "C12" | "C15" | "C10" => {
             if h.cache.is_some() && !ST.with(|s| s.borrow().closed) {
                 let rs = sweep(h, "final-sweep").await;
                 if rs.iter().any(|r| r.tag == Res::HIT) {
@@ -74,7 +74,27 @@ pub struct EntryWrite {
     pub generation: u32,
 }
 
+thread_local! {
+    static EW_CACHE: std::cell::RefCell<(usize, Vec<EntryWrite>)> = const { std::cell::RefCell::new((usize::MAX, Vec::new())) };
+    static TL_CACHE: std::cell::RefCell<(usize, Vec<(u64, u64)>)> = const { std::cell::RefCell::new((usize::MAX, Vec::new())) };
+}
+
+/// Cached per write-log length (the log only grows within a run).
 pub fn entry_writes() -> Vec<EntryWrite> {
+    let n = crate::simdev::writes_len();
+    let hit = EW_CACHE.with(|c| {
+        let c = c.borrow();
+        if c.0 == n { Some(c.1.clone()) } else { None }
+    });
+    if let Some(v) = hit {
+        return v;
+    }
+    let v = entry_writes_uncached();
+    EW_CACHE.with(|c| *c.borrow_mut() = (n, v.clone()));
+    v
+}
+
+fn entry_writes_uncached() -> Vec<EntryWrite> {
     use crate::{parser, simdev, types::Tagged};
     simdev::DISK.with(|d| {
         let d = d.borrow();
@@ -424,6 +444,7 @@ pub fn c15(case: &Case) {
                     ("policy", if woi { "woi".into() } else { "woe".into() }),
                     ("flush_on_close", foc.to_string()),
                     ("written_before_close_returned", written.to_string()),
+                    ("referenced_at_close_under_lru", (e.c > 0 && case.get("algo") == 1).to_string()),
                     ("sequence_regression_in_a_block", regress.to_string()),
                 ],
             );
@@ -456,6 +477,20 @@ pub fn block_has_sequence_regression(case: &Case) -> bool {
 /// Tombstones (hash, sequence) that were written to the tombstone log at some point but are missing from the current
 /// image of the log (partition 0 when the log is enabled).
 pub fn tombstones_lost() -> Vec<(u64, u64)> {
+    let n = crate::simdev::writes_len();
+    let hit = TL_CACHE.with(|c| {
+        let c = c.borrow();
+        if c.0 == n { Some(c.1.clone()) } else { None }
+    });
+    if let Some(v) = hit {
+        return v;
+    }
+    let v = tombstones_lost_uncached();
+    TL_CACHE.with(|c| *c.borrow_mut() = (n, v.clone()));
+    v
+}
+
+fn tombstones_lost_uncached() -> Vec<(u64, u64)> {
     use std::collections::BTreeSet;
     crate::simdev::DISK.with(|d| {
         let d = d.borrow();
